@@ -575,6 +575,13 @@ func (e *Exec) enterLoopHeader(st *State, fr *Frame, lp *Loop) bool {
 	}
 	if !useCut && isRange && !n.IsLit() {
 		useCut = true // automatic cut with the range-index bounds only
+		if !fromInside && fr.fn != e.top {
+			// an inlined helper ranging over a list that is empty on this path
+			// (e.g. no options passed): no iteration, nothing to cut
+			if cr, _ := e.sol.primary(Eq(n, IntLit(0))); cr.Res == "unsat" {
+				useCut = false
+			}
+		}
 	}
 	if !useCut {
 		for _, in := range lp.header.Instrs {
